@@ -126,6 +126,13 @@ def _map_while_form(lib, g, upd):
     return bool(is_out and is_val and ok_pay and none[0][0] == [(conds[0][0], 0)])
 
 
+def _as_bin(e):
+    """`a <= b` on Output values (derived PartialOrd / PartialEq calls) read as the same comparison on the wrapped integers"""
+    if e[0] == 'call' and isinstance(e[1], str) and len(e[2]) == 2 and e[1].rsplit('::', 1)[-1] in ('lt', 'le', 'gt', 'ge', 'eq', 'ne') and ('cmp::Partial' in e[1] or 'PartialEq' in e[1] or 'PartialOrd' in e[1]):
+        return ('bin', {'lt': 'Lt', 'le': 'Le', 'gt': 'Gt', 'ge': 'Ge', 'eq': 'Eq', 'ne': 'Ne'}[e[1].rsplit('::', 1)[-1]], e[2][0], e[2][1])
+    return e
+
+
 def r16_1(ctx):
     _POSFORM['ok'] = False
     R = ctx.rule('R16.1', 'every output-accumulating descent that tests finality also reads the final output', floor=3)
@@ -170,7 +177,7 @@ def r16_1(ctx):
                 ok_fin = any(d[3] == 1 and d[2][0] == 'call' for d in fin)
                 ok_fo = False
                 for d in fo:
-                    e, val = d[2], d[3]
+                    e, val = _as_bin(d[2]), d[3]
                     if e[0] == 'bin' and ((e[1] == 'Eq' and val == 1) or (e[1] == 'Ne' and val == 0)):
                         other = e[3] if any(x[0] == 'call' and x[1] == FINAL_OUTPUT for x in walk(e[2])) else e[2]
                         # the other side is the (remaining) query value: parameter #2 or its loop-carried version
@@ -306,6 +313,7 @@ def r16_1(ctx):
             rv = p.ret()
             while rv[0] == 'cast':
                 rv = rv[1]
+            rv = _as_bin(rv)
             if rv == ('const', 1) and not any(any(x[0] == 'field' and x[2] == 'out' for x in walk(d[2])) for d in p.decisions):
                 # `other_test || out <= value`: a transition is let through without its output having been compared
                 ctx.violation(R, 'step-choice', 'the selecting predicate accepts a transition on a path that never compares its output with the remaining value (%s): the step then subtracts an output that may exceed the value' % (
